@@ -275,3 +275,45 @@ Fixpoint lb_eqb (a b : list bool) : bool :=
 Definition tbl_fop (tbl : list (list bool * xq)) (dflt : xq) (th : list Q) : xq :=
   let k := map (fun t => Qeq_bool t 0) th in
   match find (fun e => lb_eqb (fst e) k) tbl with Some e => snd e | None => dflt end.
+
+(* encodings printed by cases.v and parsed by the harness *)
+Definition enc_x (a : xq) : list Z :=
+  match a with
+  | Fin q => [1; Qnum q; Zpos (Qden q)]
+  | PInf => [2; 0; 1]
+  | NInf => [3; 0; 1]
+  | NaN => [4; 0; 1]
+  end%Z.
+Definition enc_len (c : clen) : list Z :=
+  match c with
+  | CNaN => [0%Z]
+  | Codelen k ts => 1%Z :: k :: flat_map (fun p => enc_x (fst p) ++ [Qnum (snd p); Zpos (Qden (snd p))]) ts
+  end.
+Definition enc_out (o : outcome) : list Z :=
+  match o with Ret r => enc_len (r_len r) | Quit => [(-1)%Z] | PyError => [(-2)%Z] end.
+
+(* one correspondence case *)
+Record ccase := mkCase {
+  c_maxp : nat; c_th : list Q; c_H0 : mat; c_mats : list mat; c_seq : list nat;
+  c_nll : xq; c_tbl : list (list bool * xq); c_dflt : xq;
+  e_params : list Q; e_nll : xq; e_upper : list (list xq) }.
+Definition run_case (c : ccase) : outcome * mat :=
+  convert (c_maxp c) (c_th c) (c_H0 c) (map (fun i => nth i (c_mats c) []) (c_seq c)) (c_nll c)
+          (tbl_fop (c_tbl c) (c_dflt c)).
+Fixpoint leqb {A} (e : A -> A -> bool) (l1 l2 : list A) : bool :=
+  match l1, l2 with
+  | [], [] => true
+  | x :: r, y :: s => e x y && leqb e r s
+  | _, _ => false
+  end.
+Definition check_case (c : ccase) : bool :=
+  match run_case c with
+  | (Ret r, M) => leqb Qeq_bool (r_params r) (e_params c) && xq_eqb (r_nll r) (e_nll c)
+                  && leqb (leqb xq_eqb) (upper (length (c_th c)) M) (e_upper c)
+  | _ => false
+  end.
+Fixpoint failing_from {A} (chk : A -> bool) (i : nat) (l : list A) : list nat :=
+  match l with
+  | [] => []
+  | x :: r => if chk x then failing_from chk (S i) r else i :: failing_from chk (S i) r
+  end.
